@@ -117,9 +117,16 @@ func c11Scenarios(tier string) []Scenario {
 				add(s, "traffic:"+trName(tr.name))
 				// context cancelled at each grid instant
 				for _, tc := range grid {
-					s := base()
-					s.Calls[0].CancelAt = tc
-					add(s, "cancel:"+trName(tr.name))
+					for _, dl := range []bool{false, true} {
+						s := base()
+						s.Calls[0].CancelAt = tc
+						s.Calls[0].Deadline = dl
+						if dl {
+							add(s, "ctx-deadline:"+trName(tr.name))
+						} else {
+							add(s, "cancel:"+trName(tr.name))
+						}
+					}
 				}
 				// Close at each grid instant by a separate thread
 				for _, tc := range grid {
